@@ -18,7 +18,9 @@ for seed in sorted(mx):
                 notes = line
                 break
     notes = re.sub(r"\s+", " ", notes).replace("|", "/")[:150]
-    if not r.get("applies", True):
+    if r.get("obsolete"):
+        by = "obsolete: " + r["obsolete"][:110]
+    elif not r.get("applies", True):
         by = "patch no longer applies to /repo HEAD (%s)" % (r.get("note") or "")[:60]
     elif r.get("detected"):
         by = r.get("by") or "VIOLATION"
@@ -26,7 +28,7 @@ for seed in sorted(mx):
         by = "**not detected**"
     rows.append("| %s | %s | %s |" % (seed, notes, by))
 n_det = sum(1 for r in mx.values() if r.get("detected"))
-n_app = sum(1 for r in mx.values() if r.get("applies", True))
+n_app = sum(1 for r in mx.values() if r.get("applies", True) and not r.get("obsolete"))
 rows.append("")
 rows.append("%d of %d applicable changes detected by the quick check of their property (%d filed)." % (n_det, n_app, len(mx)))
 p = os.path.join(VERIF, "DESIGN.md")
